@@ -4,3 +4,5 @@ import Wpull.Ftp
 import Wpull.FtpDriver
 import Wpull.Crawl
 import Wpull.CrawlDriver
+import Wpull.Path
+import Wpull.PathDriver
